@@ -40,7 +40,7 @@ func runC11(c *Ctx) {
 		"(ack) the acknowledgement section of handleRequest is entered from each operation arm only with the lease in state Discover or Allocated established by a dominating test, the address acknowledged is lease.Addr.IP, taken from IPOffer only on the Discover path, and the refusal condition of the selecting arm contains the hardware, transaction-id, offered-address and leased-address mismatches. " +
 		"(free) DECLINE frees a lease only when server id, address and hardware address match; expiry frees by DHCPExpiry. (interleavings, two clauses) an address on offer to two clients is acknowledged once: findByIP sees outstanding offers or the commit of an offer is preceded by findByIP(lease.IPOffer) and a NAK when another lease holds it; handleDiscover keeps an old IPOffer only for an outstanding offer (or every site that frees a lease clears it). Not decided: uniqueness over arbitrary interleavings beyond these clauses, timing."
 	r.Rule("offer", "addresses are offered only if free in the lease table, unknown to the session and inside the subnet", 15)
-	r.Rule("ack", "acknowledgements require an outstanding offer or lease of the same client, address and transaction", 10)
+	r.Rule("ack", "acknowledgements require an outstanding offer or lease of the same client, address and transaction", 12)
 	r.Rule("free", "leases are freed only by their owner's DECLINE or by expiry", 4)
 
 	alloc := c.P.Method(dhcpRel, "Handler", "allocIPOffer")
@@ -415,6 +415,25 @@ func runC11(c *Ctx) {
 				Basis: "session.FindIP(lease.IPOffer) dominates the commit; a host with another MAC is refused with a NAK", Detail: "handleRequest commits lease.Addr.IP = lease.IPOffer without looking the address up in the session's host table again: a station that started using the address after the offer was made (a static address, say) is tracked for another MAC, and the address is acknowledged all the same"})
 		})
 	}
+	// (ack) the session's host table is told "this client has this address" only where the request is honoured or left to
+	// another server - never on the way to a NAK: a refused request for somebody else's address would otherwise re-bind
+	// that address to the requester in the session, and the rightful holder's next renewal is acknowledged while the
+	// session tracks the address for the other MAC
+	if hr := c.P.Method(dhcpRel, "Handler", "handleRequest"); hr != nil {
+		kgd := core.NewKeyGen()
+		for _, site := range callsIn(hr, nameIs("DHCPv4Update")) {
+			ins := site.(ssa.Instruction)
+			st, det := core.Proved, ""
+			for _, nk := range callsIn(hr, nameIs("nakPacket")) {
+				if reachesWithout(ins, nk.(ssa.Instruction), func(ssa.Instruction) bool { return false }) {
+					st = core.Violated
+					det = "handleRequest calls session.DHCPv4Update at " + c.P.Pos(core.PosOf(ins)) + " and can still refuse the request with the NAK at " + c.P.Pos(core.PosOf(nk.(ssa.Instruction))) + ": the session re-binds the requested address to a client whose request is refused"
+				}
+			}
+			r.Add(core.Obligation{Rule: "ack", Key: strings.TrimSuffix(kgd.Key("ack session update only on a path that does not end in a NAK"), "#0"), Func: core.FuncName(hr), Pos: c.P.Pos(core.PosOf(ins)), Status: st,
+				Basis: "no nakPacket reachable from the DHCPv4Update call", Detail: det})
+		}
+	}
 	// (offer) an old offer is not handed out again without going through allocIPOffer: on every path of handleDiscover to
 	// the `IPOffer.IsValid()` test, IPOffer was assigned on that path or the lease is an outstanding offer (state Discover)
 	if hd := c.P.Method(dhcpRel, "Handler", "handleDiscover"); hd != nil {
@@ -467,6 +486,19 @@ func runC11(c *Ctx) {
 						st = core.Violated
 						repeatFail = true
 						det = "a repeated DISCOVER of the same transaction is answered with the stored IPOffer without looking the address up again: if it was acknowledged to another client in the meantime, an address that is currently acknowledged to another client is offered"
+						break
+					}
+					// ... and of the session's host table: a station may have started using the address since the offer
+					tracked := false
+					for _, cd := range p.Conds {
+						if strings.Contains(shortLeaseD(cd), "FindIP(recv.session,LEASE.IPOffer)") {
+							tracked = true
+						}
+					}
+					if !tracked {
+						st = core.Violated
+						repeatFail = true
+						det = "a repeated DISCOVER of the same transaction is answered with the stored IPOffer without looking the address up in the session's host table again: a station that started using the address since the first offer is tracked for another MAC, and the address is offered all the same"
 						break
 					}
 				}
